@@ -482,6 +482,27 @@ func flagWords(c *vf.Ctx) {
 		})
 	}
 	checkPredicates(c, "keycredential_flags", 8, pk, "CustomKeyInformationFlags", nil)
+	// call histories on ONE receiver: all ordered pairs (x, y) of the 8 single-bit words, 0, 3 and 0xFF:
+	// FromBytes(x); keep a copy of the result; FromBytes(y) on the same receiver: the copy kept earlier
+	// must not change (a decomposition is the caller's own) and the second result must equal a fresh one.
+	words := []byte{0, 1, 2, 3, 4, 8, 16, 32, 64, 128, 0xFF}
+	for _, x := range words {
+		for _, y := range words {
+			var kf key.CustomKeyInformationFlags
+			kf.FromBytes(x)
+			kept := kf
+			keptNames := append([]string(nil), kf.Name...)
+			kf.FromBytes(y)
+			var fresh key.CustomKeyInformationFlags
+			fresh.FromBytes(y)
+			c.Check("C19/keycredential_flags/history/earlier-decomposition-unchanged-by-later-parse", kept.Value == x && fmt.Sprint(kept.Name) == fmt.Sprint(keptNames), func() string {
+				return fmt.Sprintf("FromBytes(%#02x) gave %q; after FromBytes(%#02x) on the same receiver the copy kept earlier reads %q", x, keptNames, y, kept.Name)
+			})
+			c.Check("C19/keycredential_flags/history/second-parse-equals-fresh-parse", kf.Value == fresh.Value && fmt.Sprint(kf.Name) == fmt.Sprint(fresh.Name), func() string {
+				return fmt.Sprintf("FromBytes(%#02x) then FromBytes(%#02x) on one receiver gives %q, a fresh receiver %q", x, y, kf.Name, fresh.Name)
+			})
+		}
+	}
 }
 
 // ---------------------------------------------------------------- constant tables
